@@ -165,8 +165,8 @@ func (g *generatorv2) funcMap(
 		"quote": strconv.Quote,
 		"import": func(importPath string) string {
 			for _, name := range file.Imports[importPath] {
-				// A blank import does not bind a name we could use.
-				if name != "_" {
+				// A blank or dot import does not bind a name we could use.
+				if name != "_" && name != "." {
 					return name
 				}
 			}
@@ -205,6 +205,11 @@ func (g *generatorv2) typePrinter(f *file, addImports map[string]string, aliases
 					if imp.Name.Name == "_" {
 						// A blank import does not bind a name.
 						continue
+					}
+					if imp.Name.Name == "." {
+						// A dot import puts the package's names
+						// into the file's scope.
+						return ""
 					}
 					return imp.Name.Name
 				}
